@@ -36,6 +36,34 @@ class Violation(AssertionError):
 
 
 SHRINK_BUDGET_S = 90   # wall time a shard may spend shrinking after its first failure
+CASE_CPU_LIMIT_S = 60  # CPU seconds one generated case may burn (typical cases: milliseconds)
+
+
+class _CaseTimeout(BaseException):
+    pass
+
+
+def guarded(check, case, rec):
+    """Run one oracle evaluation under a CPU-time limit (process CPU, so a loaded machine does
+    not count): code under test that never returns is reported, not waited for."""
+    import signal
+
+    def on_alarm(signum, frame):
+        raise _CaseTimeout()
+    try:
+        old = signal.signal(signal.SIGPROF, on_alarm)
+    except ValueError:      # not in the main thread: no guard
+        return check(case, rec)
+    signal.setitimer(signal.ITIMER_PROF, CASE_CPU_LIMIT_S)
+    try:
+        return check(case, rec)
+    except _CaseTimeout:
+        raise Violation(f"the code under test did not finish one generated case within {CASE_CPU_LIMIT_S} s "
+                        f"of CPU time (cases normally take milliseconds): it hangs or has become "
+                        f"pathologically slow")
+    finally:
+        signal.setitimer(signal.ITIMER_PROF, 0)
+        signal.signal(signal.SIGPROF, old)
 
 
 class _Abort(BaseException):
@@ -201,7 +229,7 @@ def _task_hyp(args):
             rec.begin(case)
             ok = False
             try:
-                sub.check(case, rec)
+                guarded(sub.check, case, rec)
                 ok = True
             except Violation as v:
                 if not state["failed"]:
@@ -252,7 +280,7 @@ def _task_sweep(args):
             rec.begin(case)
             ok = False
             try:
-                sub.check(case, rec)
+                guarded(sub.check, case, rec)
                 ok = True
             except Violation as v:
                 out["failure"] = dict(case=case, message=str(v))
@@ -395,7 +423,7 @@ def run_case(prop_id, sub_name, case, tier="quick", open_ids=()):
     case = norm(case)
     rec.begin(case)
     try:
-        subs[sub_name].check(case, rec)
+        guarded(subs[sub_name].check, case, rec)
     except Violation as v:
         rec.end(False)
         return False, str(v), rec
